@@ -259,7 +259,9 @@ func (p *Prog) indexHelpers() {
 	}
 	cand := map[*ssa.Function]*helperInfo{}
 	for f := range p.AllFuncs() {
-		if !inModule(f) || f.Blocks == nil || f.Parent() != nil || f.Synthetic != "" {
+		// an instantiation of a generic function is synthetic, but it is the body
+		// that runs: a new generic helper is inlined per instantiation
+		if !inModule(f) || f.Blocks == nil || f.Parent() != nil || (f.Synthetic != "" && f.Origin() == nil) {
 			continue
 		}
 		if f.Name() == "init" || f.Name() == "main" || inBaseline(baselineKey(f)) {
